@@ -15,9 +15,10 @@ func main() {
 	repo := flag.String("repo", "/repo", "library source directory")
 	out := flag.String("out", "", "output directory")
 	harness := flag.String("harness", "/verif/harness", "harness directory ('' = none)")
+	tests := flag.Bool("tests", false, "instrument the library's tests too (passthrough validation)")
 	flag.Parse()
 	st, err := instr.BuildScratch(instr.Scratch{RepoDir: *repo, VerifDir: "/verif", GoRoot: runtime.GOROOT(), OutDir: *out,
-		HarnessDir: *harness, ModCache: "/root/go/pkg/mod"})
+		WithTests: *tests, HarnessDir: *harness, ModCache: "/root/go/pkg/mod"})
 	if err != nil {
 		fmt.Fprintln(os.Stderr, "bbsim-instr:", err)
 		os.Exit(2)
